@@ -79,6 +79,10 @@ var hex32 = regexp.MustCompile(`^[0-9a-f]{32,}$`)
 var visitsRe = regexp.MustCompile(`visits=(\w+) pv=([^;]*);`)
 
 func runSession(c *hk.Ctx) {
+	var idle *idleRun
+	if c.Thorough() {
+		idle = startIdleAcrossSweep()
+	}
 	cfgs := []hk.SrvCfg{}
 	for _, m := range []string{"stateful", "stateless", "sessionsOff"} {
 		for _, g := range []bool{true, false} {
@@ -179,6 +183,10 @@ func runSession(c *hk.Ctx) {
 	c.SetExtra("status_distribution", dist)
 	runConcurrentDeletes(c)
 	runDeleteDuringRequest(c)
+	runFailingChain(c)
+	if idle != nil {
+		idle.finish(c)
+	}
 }
 
 // runDeleteDuringRequest: a session is deleted (DELETE answered 200) while one of its requests is still being handled;
@@ -589,4 +597,123 @@ func runSessionHistory(c *hk.Ctx, cfg hk.SrvCfg, h []sOp, foreignID string, dist
 	}
 	c.Emit(map[string]any{"c": "session.run", "cfg": map[string]any{"mode": cfg.Mode, "get": cfg.Get, "sse": cfg.PostSSE}, "ops": opsJ},
 		map[string]any{"outs": outs}, len(ids) > 0 && refused, "history-"+cfg.Mode, fmt.Sprintf("len-%02d", min(len(h), 20)))
+}
+
+// idleRun: (thorough tier) two sessions of a server with the default expiry (one hour) are left alone until the session
+// manager's once-a-minute sweeper has run: nothing but DELETE ends a session, so both must still be live and served, and
+// the open stream of the first must still be open. The wait overlaps with the rest of the run.
+type idleRun struct {
+	f       *hk.Fixture
+	created time.Time
+	sids    []string
+	st      *hk.Stream
+}
+
+func startIdleAcrossSweep() *idleRun {
+	r := &idleRun{f: hk.NewFixture(hk.SrvCfg{Mode: "stateful", Get: true, PostSSE: false}), created: time.Now()}
+	for i := 0; i < 2; i++ {
+		a := r.f.Post(map[string]string{"Accept": "application/json"}, bodies["initOk"])
+		if a.Header != nil {
+			r.sids = append(r.sids, a.Header.Get("Mcp-Session-Id"))
+		}
+	}
+	if len(r.sids) == 2 && r.sids[0] != "" {
+		_, _, st, _ := r.f.OpenStream(map[string]string{"Mcp-Session-Id": r.sids[0]})
+		r.st = st
+	}
+	return r
+}
+
+func (r *idleRun) finish(c *hk.Ctx) {
+	defer r.f.Close()
+	if len(r.sids) != 2 || r.sids[0] == "" || r.sids[1] == "" {
+		c.Noise()
+		return
+	}
+	if d := 61500*time.Millisecond - time.Since(r.created); d > 0 {
+		time.Sleep(d)
+	}
+	live, _ := r.f.S.GetActiveSessions()
+	sort.Strings(live)
+	want := append([]string{}, r.sids...)
+	sort.Strings(want)
+	var st []int
+	for _, sid := range r.sids {
+		st = append(st, r.f.Post(map[string]string{"Mcp-Session-Id": sid, "Accept": "application/json"}, bodies["request"]).Status)
+	}
+	streamOpen := r.st != nil && !r.st.Ended(10*time.Millisecond)
+	c.Count("idle-across-sweep", true, nil, fmt.Sprintf("idle-%v", st))
+	if fmt.Sprint(live) != fmt.Sprint(want) || st[0] != 200 || st[1] != 200 {
+		c.Violate(hk.Violation{Fingerprint: "session:vanished-without-delete", What: "sessions left idle for a minute (default expiry: one hour) on a server that received no DELETE are no longer live / served after the session manager's sweep",
+			Input:    map[string]any{"steps": []string{"initialize x2", "GET (first session)", "wait 61.5 s since the server was created", "GetActiveSessions; request bearing each id"}},
+			Observed: map[string]any{"live": live, "request_status": st, "stream_open": streamOpen}, Expected: map[string]any{"live": want, "request_status": []int{200, 200}}})
+	}
+}
+
+// runFailingChain: a middleware makes the handler chain fail with a Go error for chosen requests (the server answers them
+// with -32603). Such an answer is still the answer to a request of its session: an initialize without id that leaves a
+// live session behind must have issued that session's id in its answer (otherwise the server reports a live session no
+// history knows), and a failed request bearing a live id is answered with that same id.
+func runFailingChain(c *hk.Ctx) {
+	refuse := func(next mcp.HandlerFunc) mcp.HandlerFunc {
+		return func(ctx context.Context, req *mcp.JSONRPCRequest) (mcp.JSONRPCMessage, error) {
+			if id, ok := req.ID.(string); ok && strings.HasPrefix(id, "fail") {
+				return nil, fmt.Errorf("chain refused %s", id)
+			}
+			return next(ctx, req)
+		}
+	}
+	for _, sse := range []bool{false, true} {
+		for _, accept := range []string{"application/json", "application/json, text/event-stream"} {
+			f := hk.NewFixture(hk.SrvCfg{Mode: "stateful", Get: true, PostSSE: sse}, mcp.WithMiddleware(refuse))
+			in := map[string]any{"post_sse": sse, "accept": accept}
+			liveSet := func() []string { l, _ := f.S.GetActiveSessions(); sort.Strings(l); return l }
+			// 1. an initialize whose chain fails
+			a := f.Post(map[string]string{"Accept": accept}, strings.Replace(bodies["initOk"], `"id":1`, `"id":"fail-init"`, 1))
+			issued := ""
+			if a.Header != nil {
+				issued = a.Header.Get("Mcp-Session-Id")
+			}
+			live1 := liveSet()
+			exp1 := []string{}
+			if issued != "" {
+				exp1 = []string{issued}
+			}
+			c.Count("failing-chain", true, nil, fmt.Sprintf("failed-init-%d", a.Status))
+			if fmt.Sprint(live1) != fmt.Sprint(exp1) {
+				c.Violate(hk.Violation{Fingerprint: "session:live-set-differs-from-history:failed-initialize", What: "after an initialize whose handler chain failed (-32603) the server reports a live session whose id was not issued in the answer (or issued an id that is not live)",
+					Input: in, Observed: map[string]any{"status": a.Status, "issued": issued, "live": live1}, Expected: "live set = ids issued"})
+			}
+			// 2. an ordinary session; a failing request bearing its id
+			b := f.Post(map[string]string{"Accept": accept}, bodies["initOk"])
+			sid := ""
+			if b.Header != nil {
+				sid = b.Header.Get("Mcp-Session-Id")
+			}
+			if sid == "" {
+				f.Close()
+				c.Noise()
+				continue
+			}
+			r := f.Post(map[string]string{"Accept": accept, "Mcp-Session-Id": sid}, `{"jsonrpc":"2.0","id":"fail-req","method":"ping"}`)
+			got := ""
+			if r.Header != nil {
+				got = r.Header.Get("Mcp-Session-Id")
+			}
+			c.Count("failing-chain", true, nil, fmt.Sprintf("failed-request-%d", r.Status))
+			if r.Status != 200 || got != sid || !strings.Contains(string(r.Body), "-32603") {
+				c.Violate(hk.Violation{Fingerprint: "session:answer-without-its-session-id:failed-request", What: "a request bearing a live session id whose handler chain failed is not answered (-32603) with the same session id",
+					Input: in, Observed: map[string]any{"status": r.Status, "sid_header": got, "body": string(r.Body)}, Expected: map[string]any{"status": 200, "sid_header": sid}})
+			}
+			// 3. the session is still served, the live set is what the history left
+			r2 := f.Post(map[string]string{"Accept": accept, "Mcp-Session-Id": sid}, bodies["request"])
+			exp := append(append([]string{}, exp1...), sid)
+			sort.Strings(exp)
+			if live := liveSet(); r2.Status != 200 || fmt.Sprint(live) != fmt.Sprint(exp) {
+				c.Violate(hk.Violation{Fingerprint: "session:live-set-differs-from-history:after-failed-request", What: "after a request whose handler chain failed the session is not served any more or the live set changed",
+					Input: in, Observed: map[string]any{"status": r2.Status, "live": live}, Expected: map[string]any{"status": 200, "live": exp}})
+			}
+			f.Close()
+		}
+	}
 }
